@@ -520,10 +520,10 @@ def _pow_targets():
             ("ref FQP", refM.FQP.__pow__, "ref", "FQ12"), ("opt FQP", optM.FQP.__pow__, "opt", "FQ12")]
 
 
-def _has_while(fn):
+def _has_while(fn, also_for=False):
     import ast, inspect, textwrap
     t = ast.parse(textwrap.dedent(inspect.getsource(fn)))
-    return any(isinstance(n, ast.While) for n in ast.walk(t))
+    return any(isinstance(n, (ast.While, ast.For) if also_for else ast.While) for n in ast.walk(t))
 
 
 @obligation("C08", "pow_all_exponents", bound="every integer exponent n >= 0 (unbounded): inductive step for recursive forms, loop-cut invariant step for iterative forms; additionally all n < 2^6 unrolled")
@@ -593,7 +593,19 @@ def _model_n(pth, m=None):
         return {}
 
 
-def _pow_loop_step(rep, tag, fn, rp):
+class _NoEnv:
+    def __enter__(self):
+        return self
+
+    def __exit__(self, *a):
+        return False
+
+
+def _pow_loop_step(rep, tag, fn, rp, *, is_elt=None, mk=None, expo=None, env=None, stubs=None, what="x**n == x^n"):
+    is_elt = is_elt or (lambda v: isinstance(v, ExpElt))
+    mk = mk or (lambda c: ExpElt(_Carrier(c)))
+    expo = expo or (lambda e: e.c)
+    env = env or _NoEnv
     """loop invariant  o = x^a, t = x^b, a + b*e = n  is established by the prologue, preserved by
     one arbitrary iteration (symbolic a, b, e), decreases e, and gives the result on exit."""
     try:
@@ -601,12 +613,15 @@ def _pow_loop_step(rep, tag, fn, rp):
     except loopcut.LoopCutError as e:
         rep.unknown("%s: loop cut does not apply (%s); only the unrolled bound stands" % (tag, e))
         return
+    if stubs:
+        cut["globals"].update(stubs)        # the cut functions run in a private copy of the module globals: callees replaced by their models
 
     def run(ctx):
         ExpElt.calls = []
         n = SymZ.var("n", 0, None)
-        x = ExpElt(_Carrier(SymZ.const(1)))
-        kind, st = cut["init"](x, n)
+        x = mk(SymZ.const(1))
+        with env():
+            kind, st = cut["init"](x, n)
         if kind != "state":
             raise core.Unsupported("prologue returned")
         return n, st
@@ -619,7 +634,9 @@ def _pow_loop_step(rep, tag, fn, rp):
             rep.unknown("%s: prologue not executable symbolically: %r" % (tag, pth.value))
             return
         n, st = pth.value
-        elts = [k for k, v in st.items() if isinstance(v, ExpElt) and k != cut["params"][0]]
+        elts = [k for k, v in st.items() if is_elt(v)]
+        if len(elts) > 2 and cut["params"][0] in elts:
+            elts.remove(cut["params"][0])       # a separate running variable exists: the parameter itself is only read
         ints = [k for k, v in st.items() if isinstance(v, (SymZ, int)) and not isinstance(v, bool)]
         found["elts"], found["ints"], found["self"] = elts, ints, cut["params"][0]
         found["init"] = st
@@ -644,13 +661,15 @@ def _pow_loop_step(rep, tag, fn, rp):
             bit = SymZ.var("bit", 0, 1)
             e = 2 * h + bit
             ctx.assume(a + b * e == n)           # invariant (b*e is the only product: NIA, tiny)
-            st = {cut["params"][0]: ExpElt(_Carrier(SymZ.const(1))), acc: ExpElt(_Carrier(a)), pw: ExpElt(_Carrier(b)), evar: e}
-            c = cut["cond"](**st)
-            if not c:
-                # exit: result of the epilogue is x^n
-                r = cut["tail"](**st)
-                return ("exit", n, r, None)
-            kind, st2 = cut["body"](**st)
+            st = dict(found["init"])
+            st.update({cut["params"][0]: mk(SymZ.const(1)), acc: mk(a), pw: mk(b), evar: e})
+            with env():
+                c = cut["cond"](**st)
+                if not c:
+                    # exit: result of the epilogue is x^n
+                    r = cut["tail"](**st)
+                    return ("exit", n, r, None)
+                kind, st2 = cut["body"](**st)
             if kind != "state":
                 raise core.Unsupported("loop body returned")
             return ("step", n, st2, e)
@@ -663,13 +682,13 @@ def _pow_loop_step(rep, tag, fn, rp):
             what, n, st2, e = pth.value
             if what == "exit":
                 r = st2
-                if not isinstance(r, ExpElt):
+                if not is_elt(r):
                     ok[0] = False
                     return
-                v, m = pth.ctx.prove(r.c.t == n.t, timeout_ms=20000)
+                v, m = pth.ctx.prove(expo(r).t == n.t, timeout_ms=20000)
                 ok[0] &= (v == "unsat")
                 return
-            a2, b2, e2 = st2[acc].c, st2[pw].c, SymZ.lift(st2[evar])
+            a2, b2, e2 = expo(st2[acc]), expo(st2[pw]), SymZ.lift(st2[evar])
             v, m = pth.ctx.prove(z3.And(a2.t + b2.t * e2.t == n.t, e2.t >= 0, e2.t < e.t), timeout_ms=20000)
             ok[0] &= (v == "unsat")
             if v == "sat":
@@ -686,7 +705,7 @@ def _pow_loop_step(rep, tag, fn, rp):
             v = "unsat"
             for (ipth, st, n) in found["inits"]:
                 # every path through the prologue must establish the invariant (e.g. an exponent reduction would not)
-                vi, mi = ipth.ctx.prove(z3.And(st[acc].c.t + st[pw].c.t * SymZ.lift(st[evar]).t == n.t, SymZ.lift(st[evar]).t >= 0))
+                vi, mi = ipth.ctx.prove(z3.And(expo(st[acc]).t + expo(st[pw]).t * SymZ.lift(st[evar]).t == n.t, SymZ.lift(st[evar]).t >= 0))
                 if vi != "unsat":
                     v = vi
                     if vi == "sat":
@@ -1057,8 +1076,8 @@ def _mk_fqp_inv(impl, curve, deg):
         elif tier == "quick":
             supports = [(i,) for i in range(7)]
         else:
-            # reference classes (FQ objects per coefficient) decide {8}, {9}, {0,6} only partly within the budget (measured): optimized only
-            supports = [(i,) for i in range(8)] + ([(8,), (9,), (0, 6)] if impl == "opt" else [])
+            # reference classes (FQ objects per coefficient) decide {7}, {8}, {9}, {0,6} only partly within the budget (measured): optimized only
+            supports = [(i,) for i in range(7)] + ([(7,), (8,), (9,), (0, 6)] if impl == "opt" else [])
         for i, c, K, M in fqp_classes(deg):
             if i == impl and c == curve:
                 _check_fqp_inv(rep, i, c, deg, K, M, supports)
@@ -1070,7 +1089,7 @@ for _impl in ("ref", "opt"):
         for _deg in (2, 12):
             obligation("C08", "fqp_inv_%s_%s_fq%d" % (_impl, _curve, _deg), timeout=400,
                        bound=("FQ2: all elements (both coefficients symbolic, every zero pattern)" if _deg == 2 else
-                              "FQ12: coefficient supports {i}, i = 0..6 (quick), i = 0..7 (thorough; optimized classes also {8}, {9}, {0,6}); supports {10}, {11}, other pairs and denser supports exceed the time/memory budget at the real primes (rational functions without gcd cancellation) and are claimed only in the small-field tier; real prime; generic path + zeroed support variables"))(
+                              "FQ12: coefficient supports {i}, i = 0..6 (quick), i = 0..6 (thorough: optimized classes also {7}, {8}, {9}, {0,6}); supports {10}, {11}, other pairs and denser supports exceed the time/memory budget at the real primes (rational functions without gcd cancellation) and are claimed only in the small-field tier; real prime; generic path + zeroed support variables"))(
                 _mk_fqp_inv(_impl, _curve, _deg))
 
 
